@@ -331,6 +331,7 @@ pub fn run(ctx: &mut Ctx) {
     });
 
     // ---- exhaustive neighbourhood: every length 0..=45, every first byte, every second byte
+    ctx.seen("exhaustive_subspaces", "C16: every script length 0..=45 x every first byte x every second byte (3 014 656 scripts); every value of every byte of 8 exact templates; all witness versions x program lengths 0..=42");
     ctx.phase("neighbourhood-len-b0", 46 * 256, |ctx, k| {
         let len = (k / 256) as usize;
         let b0 = (k % 256) as u8;
